@@ -970,6 +970,7 @@ class ExecComp(ExplicitComponent):
 
         # compute perturbations
         starting_inputs = self._inputs.asarray(copy=not self._relcopy)
+        starting_outputs = None if self._relcopy else oarr.copy()
         in_offsets = starting_inputs.copy()
         in_offsets[in_offsets == 0.0] = 1.0
         in_offsets *= info['perturb_size']
@@ -988,6 +989,7 @@ class ExecComp(ExplicitComponent):
 
         if not self._relcopy:
             self._inputs.set_val(starting_inputs)
+            oarr[:] = starting_outputs
 
         sparsity, sp_info = jac.get_sparsity()
         sparsity_time = time.perf_counter() - sparsity_start_time
@@ -1079,6 +1081,26 @@ class ExecComp(ExplicitComponent):
                                "level system is using complex step unless you manually call "
                                "declare_partials and/or declare_coloring on this ExecComp.")
 
+        if not self._relcopy:
+            # the complex arrays of the input and output vectors themselves are used (force_alloc_complex),
+            # so every _exec below writes into the outputs vector: put the outputs back when done
+            saved_outputs = self._outarray.copy()
+            try:
+                self._cs_partials(partials)
+            finally:
+                self._outarray[:] = saved_outputs
+        else:
+            self._cs_partials(partials)
+
+    def _cs_partials(self, partials):
+        """
+        Fill the given Jacobian by complex step (with coloring if there is one).
+
+        Parameters
+        ----------
+        partials : `Jacobian`
+            Contains sub-jacobians.
+        """
         if self._coloring_info.coloring is not None:
             self._compute_colored_partials(partials)
             return
